@@ -1,7 +1,7 @@
 SPECIFICATION TraceSpec
 CONSTANTS
   MaxLen = 0
-INVARIANTS TypeOK LiveInv Refines RemainderInv ItemsInside
+INVARIANTS TypeOK LiveInv Refines RemainderInv ItemsInside ArithInv
 CONSTRAINT Progress
 POSTCONDITION Accepted
 CHECK_DEADLOCK FALSE
